@@ -188,6 +188,17 @@ CHECKS = {
              "search, not a proof; the enumerated sub-scopes are complete.",
         note="Trusts torch tensor equality and the harness-side encoder/decoder in pbt/gen.py (independent of tangermeme.utils). "
              "Alphabets are printable ASCII without 'N'."),
+    "C19": dict(
+        technique="property-based testing (Hypothesis): validity predicate over every returned seqlet row against the input track",
+        category="exploration", design_ref="DESIGN.md §3 C19",
+        text="Random attribution tracks (dyadic-rational noise plus planted positive/negative bumps, some at positions 0..3 and at the "
+             "end) are passed to recursive_seqlets (thresholds, min/max lengths, additional_flanks 0-5, torch/numpy, float32/64) and "
+             "tfmodisco_seqlets (window, flank, target_fdr); every row must lie inside its example, have a valid example index, p <= "
+             "threshold, the table sorted by p, attribution equal to the input sum over its span (exact for float64 dyadic input), "
+             "pre-flank length within [min, max]; TF-MoDISco rows must span window+2*flank, report the central-window sum and respect "
+             "the suppression radius; the input must be unchanged.",
+        note="Degenerate tracks on which a caller raises are counted as rejected_by_sut; the docstring's relation 'flanks only widen the "
+             "flank-0 calls' is deliberately not asserted (it does not hold and C19 does not state it). TF-MoDISco caller only accepts float32."),
     "C20": dict(
         technique="property-based testing (Hypothesis): validity predicate against brute-force enumeration of all single substitutions + chained-step metamorphic relation",
         category="exploration", design_ref="DESIGN.md §3 C20",
